@@ -123,16 +123,17 @@ func (cx *Connection) Write(p []byte) (n int, err error) {
 }
 
 // Wrap wraps conn in a new Connection based on cx (reusing
-// cx's existing buffer and context). This is useful after
-// a connection is wrapped by a package that does not support
-// our Connection type (for example, `tls.Server()`).
+// cx's context). This is useful after a connection is wrapped
+// by a package that does not support our Connection type (for
+// example, `tls.Server()`). The new Connection starts with an
+// empty buffer: conn reads from cx, so any bytes still buffered
+// in cx are delivered through conn, and must not be delivered
+// a second time (or ahead of what conn has buffered itself).
 func (cx *Connection) Wrap(conn net.Conn) *Connection {
 	return &Connection{
 		Conn:         conn,
 		Context:      cx.Context,
 		Logger:       cx.Logger,
-		buf:          cx.buf,
-		offset:       cx.offset,
 		matching:     cx.matching,
 		bytesRead:    cx.bytesRead,
 		bytesWritten: cx.bytesWritten,
